@@ -20,7 +20,8 @@ RULE = ("exhaustive: 1..4 caches x every hit/miss assignment per cache (multi-ke
         "miss-shaped value); a write is exactly one call on cache 0 carrying the caller's arguments (real back-end: "
         "the command received by server 0 equals the one a plain Client sends; other servers receive nothing). "
         "Hit values include falsy ones (b'', 0, '', False, [], {}) and tuples shaped like another read's miss ((None, x), (None, None), ()): a hit is a hit whatever its value. A cache that raises on a read (eleven exception types, at each position, with and without a hit before it): the error reaches the caller, it is not taken for a miss and no later cache is consulted. Used again after close(): one to three close() calls (each closes every cache once, in any order) with reads and writes judged before and after each. Long key lists (2 ... 2049 keys, thorough to 10001, as list and tuple; the primary holding a single key at the start / middle / end / position 1024 / 1400, or nothing, or everything) go through the same oracle: every consulted cache is asked once, for exactly the caller's keys. Non-trivial: >=2 caches and the first hit is not in cache 0, or a hit carries a falsy value, or a write. Required arguments at the edge: cas tokens 0 / b'0' / '0' / 2**64-1, values that are empty, 0 or False. Long lives: 3000 (thorough 30 000) reads on one FallbackClient in runs of misses, primary hits and fallback hits."
-        + " noreply=None passed explicitly; 33 failure classes of a cache that raises (the socket error classes, StopIteration, the library's own).")
+        + " noreply=None passed explicitly; 33 failure classes of a cache that raises (the socket error classes, StopIteration, the library's own)."
+        + " Writes after reads: on one FallbackClient over 2-3 caches, a read (get, gets, get_many, gets_many) of the key answered by cache j or by none, once or twice, then every mutating operation on that key or another (a cas with the token the read returned): exactly one call, on cache 0, with the caller's arguments and the defaults for what the caller left out.")
 MANIFEST = {
     "category": "exploration",
     "technique": "bounded-exhaustive enumeration of cache states and operations against a call-log oracle (scripted caches) and a differential oracle (real Clients over a fake network vs. a plain Client)",
